@@ -199,7 +199,7 @@ def monitor(case, out):
             if out[0] != "2" or out[1] != "8":
                 return ("a message announcing %d bytes (> 1 MiB) is not rejected before any payload is read: class %s, %s bytes consumed"
                         % (announced, out[0], out[1]), {"case": describe(case), "announced": announced})
-        if announced is not None and announced <= LIMIT and case[3] >= announced and case[2] == "j" and announced > 0:
+        if announced is not None and announced <= LIMIT and case[3] == announced and case[2] == "j" and announced > 0:
             if out[0] != "0" or out[3] != "1":
                 return ("a well-formed %d-byte message is not read back (class %s)" % (announced, out[0]), {"case": describe(case)})
         return None
@@ -213,7 +213,7 @@ def monitor(case, out):
         return ("write_json does not write header+serde_json payload", {"case": describe(case)[:2000]})
     if op == "S":
         if out[4] != "1":
-            return ("a field other than a duration differs after the round trip", {"case": describe(case)[:4000], "class": "f64-last-digit"})
+            return ("a field other than a duration differs after the round trip", {"case": describe(case)[:4000]})
         vals = list(map(int, out[5:]))
         for b, a in zip(vals[0::2], vals[1::2]):
             if not dur_ok(b, a):
@@ -228,9 +228,9 @@ def monitor(case, out):
     elif op == "X":
         vals = [int(x, 16) for x in out[4:]]
         for b, a in zip(case[1], vals):
-            if b != a and not (float_of(b) == 0.0 and float_of(a) == 0.0 and b == a):
+            if b != a:
                 return ("the f64 %r (bits %016x) is read back as %r (bits %016x)" % (float_of(b), b, float_of(a), a),
-                        {"case": "X %016x" % b, "class": "f64-last-digit"})
+                        {"case": "X %016x" % b, "f64_bits_written": "%016x" % b, "f64_bits_read": "%016x" % a})
     return None
 
 
